@@ -323,6 +323,7 @@ func oracle(c core.Case, out []string) []core.Finding {
 	var data []byte
 	var pieces [][]byte
 	genuineHdr := true
+	virtualHdr := false
 	for i, op := range c.Ops {
 		m := kv(op)
 		switch strings.Fields(op)[0] {
@@ -331,10 +332,15 @@ func oracle(c core.Case, out []string) []core.Finding {
 			k, _ := strconv.Atoi(m["psize"])
 			pieces = split(data, k)
 		case "hdr":
+			virtualHdr = m["virtual"] == "1"
 			// a header whose part count is not the committed tree's commits to no data: not judged
 			t, _ := strconv.Atoi(m["total"])
 			genuineHdr = pieces != nil && t == len(pieces) && bytes.Equal(unhx(m["root"]), merkle.HashFromByteSlices(pieces))
 		case "add":
+			if out[i] == "added" && virtualHdr {
+				fs = append(fs, core.Finding{Fingerprint: "partset.AddPart.accepts-part-under-header-committing-to-no-data",
+					Desc: fmt.Sprintf("AddPart accepted a part with proof (index %s, total %s) at slot %s of a %s-part header whose root is not the root of any tree with that many leaves (it is the root of a virtual tree in which the proof is genuine at an index differing from the slot by a multiple of 2^32)", m["pidx"], m["ptotal"], m["idx"], "header")})
+			}
 			if out[i] == "added" && genuineHdr {
 				idx, _ := strconv.Atoi(m["idx"])
 				if pieces != nil && (idx >= len(pieces) || !bytes.Equal(pieces[idx], unhx(m["bytes"]))) {
@@ -483,7 +489,7 @@ var mutHist = map[string]int{}
 
 // mutateProof applies one of the mutation classes of the property's quantifier.
 func mutateProof(r *rand.Rand, p merkle.Proof, other *merkle.Proof) (merkle.Proof, string) {
-	k := r.Intn(12)
+	k := r.Intn(14)
 	name := ""
 	switch k {
 	case 0:
@@ -547,6 +553,22 @@ func mutateProof(r *rand.Rand, p merkle.Proof, other *merkle.Proof) (merkle.Proo
 			}
 		}
 		name = "transplant"
+	case 12:
+		// an aunt LONGER than a hash: the genuine aunt followed by junk (a verifier that truncates
+		// its preimage buffer would still accept it)
+		if len(p.Aunts) > 0 {
+			i := r.Intn(len(p.Aunts))
+			p.Aunts[i] = append(append([]byte{}, p.Aunts[i]...), rbytes(r, 1+r.Intn(40))...)
+		}
+		name = "aunt-extended"
+	case 13:
+		// an aunt replaced by a 64-byte string (e.g. the two children of some node)
+		if len(p.Aunts) > 0 {
+			i := r.Intn(len(p.Aunts))
+			j := r.Intn(len(p.Aunts))
+			p.Aunts[i] = append(append([]byte{}, p.Aunts[i]...), p.Aunts[j]...)
+		}
+		name = "aunt-double"
 	case 11:
 		// shape-equivalent (index,total): the last leaf of an n-leaf tree restated in a larger tree
 		p.Index += 1
@@ -743,6 +765,58 @@ func genConcurrent(r *rand.Rand, emit func(core.Case), n int) {
 	}
 }
 
+func pathLen(index, total int64) int {
+	if total <= 1 {
+		return 0
+	}
+	k := int64(1)
+	for k*2 < total {
+		k *= 2
+	}
+	if index < k {
+		return 1 + pathLen(index, k)
+	}
+	return 1 + pathLen(index-k, total-k)
+}
+
+// genVirtual: headers whose root is NOT the root of a tree with `total` leaves but of a huge
+// virtual tree in which the offered proofs are genuine at positions that differ from the slot by a
+// multiple of 2^32 (integer-width confusions between the uint32 slot/total and the int64 proof
+// fields). No data is committed to by such a header, so nothing may be accepted under it.
+func genVirtual(r *rand.Rand, emit func(core.Case), n int) {
+	for c := 0; c < n; c++ {
+		tot := int64(1 + r.Intn(3))
+		slot := int64(r.Intn(int(tot)))
+		off := int64(1) << 32
+		if r.Intn(3) == 0 {
+			off = int64(1) << uint(33+r.Intn(8))
+		}
+		vIndex, vTotal := slot+off, tot+off
+		bytesA := rbytes(r, 1+r.Intn(6))
+		aunts := make([][]byte, pathLen(vIndex, vTotal))
+		for i := range aunts {
+			aunts[i] = make([]byte, 32)
+			r.Read(aunts[i])
+		}
+		pr := merkle.Proof{Total: vTotal, Index: vIndex, LeafHash: leafHashOf(bytesA), Aunts: aunts}
+		root := pr.ComputeRootHash()
+		if root == nil {
+			continue
+		}
+		ops := []string{fmt.Sprintf("hdr total=%d root=%s virtual=1", tot, hx(root))}
+		variants := []merkle.Proof{pr, pr, pr, pr}
+		variants[1].Index = slot                       // slot index, virtual total
+		variants[2].Total = tot                        // virtual index, header total
+		variants[3].Index, variants[3].Total = slot, tot // what the guard demands (cannot verify)
+		for _, i := range r.Perm(4) {
+			ops = append(ops, addOp(int(slot), bytesA, variants[i]))
+			mutHist["virtual-tree-offset"]++
+		}
+		ops = append(ops, "done")
+		emit(core.Case{Kind: "virtual", Ops: ops})
+	}
+}
+
 func genTx(r *rand.Rand, emit func(core.Case), n int) {
 	for c := 0; c < n; c++ {
 		cnt := 1 + r.Intn(9)
@@ -862,6 +936,7 @@ func main() {
 			genTx(r, emit, n/2)
 			genConcurrent(r, emit, n/4)
 			genHuge(r, emit, n/40)
+			genVirtual(r, emit, n/8)
 		},
 		Exec:   execCase,
 		Oracle: oracle,
